@@ -19,6 +19,9 @@ import (
 
 const Mod = "github.com/semafind/semadb"
 
+// GoBin is the toolchain the analysis is pinned to (go1.26.8; x/tools v0.50.0 needs it).
+const GoBin = "/opt/veriftools/go1.26.8/bin"
+
 // Packages that cannot be type-checked in this image, with the reason.
 var Excluded = map[string]string{
 	Mod + "/internal/loadhdf5": "cgo against hdf5.h which the image does not have; developer data loader",
@@ -43,8 +46,21 @@ func RepoDir() string {
 }
 
 func Load(goarch string) (*World, error) {
-	env := append(os.Environ(), "GOFLAGS=-mod=mod", "GOPROXY=off", "GOTOOLCHAIN=local", "GOWORK=off",
-		"PATH=/opt/veriftools/go1.26.8/bin:"+os.Getenv("PATH"))
+	// go/packages resolves the "go" binary through this process's PATH (exec.LookPath),
+	// not through cfg.Env, so the pinned toolchain is put in front of both.
+	if !strings.HasPrefix(os.Getenv("PATH"), GoBin+":") {
+		os.Setenv("PATH", GoBin+":"+os.Getenv("PATH"))
+	}
+	var env []string
+	for _, kv := range os.Environ() {
+		k, _, _ := strings.Cut(kv, "=")
+		switch k {
+		case "GOFLAGS", "GOPROXY", "GOTOOLCHAIN", "GOWORK", "GOARCH", "GOOS", "CGO_ENABLED", "GOSUMDB":
+			continue // never inherit the caller's build configuration
+		}
+		env = append(env, kv)
+	}
+	env = append(env, "GOFLAGS=-mod=mod", "GOPROXY=off", "GOTOOLCHAIN=local", "GOWORK=off")
 	if goarch != "" {
 		env = append(env, "GOARCH="+goarch, "CGO_ENABLED=0")
 	}
